@@ -22,7 +22,7 @@ RULE = ('Generated property texts (inline, -p) and specification files (valid; s
         'failing run must print a diagnostic and no JSON document; a successful -o json run must print one strictly '
         'valid JSON document equal to the mirror serialisation of the AST parsed in-process. Non-trivial = JSON '
         'compared or error path judged with >= 2 events; distinct = shape x flags x outcome.')
-RULE_ADDED = ' Since the seeding rounds: finite extremes of the doubles, integers that no double holds exactly and one beyond the doubles\' range (compared exactly).'
+RULE_ADDED = ' Since the seeding rounds: finite extremes of the doubles, integers that no double holds exactly and one beyond the doubles\' range (compared exactly); empty and blank files.'
 ASSUMPTIONS = [
     'argument texts starting with "-" are not judged (argparse takes them for options: caller error)',
     'the in-process parse outcome of the same text is the reference for "parses"',
@@ -175,6 +175,15 @@ def run(ctx):
                         f.write(text.encode('utf8') + b'\xff\xfe')
                     path_kind = 'bad-utf8'
                     expected = ('raise', UnicodeDecodeError('utf-8', b'', 0, 1, 'x'))
+                elif k2 < 0.14:
+                    # a file with nothing in it, or only blanks / a comment sign: whatever the parser says about that
+                    # text is what the tool must say
+                    text = gen.pick(rng, ('', '\n', '   \n\t\n  ', '\r\n', '#', '# id: lonely\n'))
+                    with open(path, 'w', encoding='utf8', newline='') as f:
+                        f.write(text)
+                    path_kind = 'blank'
+                    expected = hplapi.outcome(PS.parse, text)
+                    ctx.count('blank_files')
                 else:
                     with open(path, 'w', encoding='utf8', newline='') as f:
                         f.write(text)
